@@ -104,7 +104,18 @@ GEN_VALUE = {"obj": "G", "fields": [
     ["tail", {"any": {"qname": None, "text": None, "tail": "x", "attrs": [], "children": []}}],
 ]}
 
+# --- a fixed (init=False) field: its value is bound first and compared with the default afterwards
+FIX_DESC = {"classes": [
+    {"name": "F", "fields": [
+        _f("s", {"opt": "str"}, {"type": "Element"}, **NONE),
+        {"name": "a", "type": "int", "metadata": {"type": "Attribute"}, "default": {"value": 3}, "init": False},
+        {"name": "b", "type": "bool", "metadata": {"type": "Attribute"}, "default": {"value": True}, "init": False},
+    ]},
+]}
+FIX_VALUE = {"obj": "F", "fields": [["s", {"str": "x"}], ["a", {"int": 3}], ["b", {"bool": True}]]}
+
 WITNESSES = {
+    "fixw": (FIX_DESC, {"value": FIX_VALUE}),
     "genw": (GEN_DESC, {"value": GEN_VALUE}),
     "sub": (SUB_DESC, {"value": SUB_VALUE, "other": SUB_OTHER, "good": SUB_GOOD}),
     "anyw": (ANY_DESC, {"value": ANY_VALUE}),
@@ -280,6 +291,16 @@ def main():
     # the same witnesses as corpus cases of the correspondence ops
     cdir = os.path.join(os.path.dirname(here), "corpus", "C04")
     os.makedirs(cdir, exist_ok=True)
+    # a fixed field given as lexical variants of its value (bound before it is compared), and as wrong values
+    uf = B.Universe(FIX_DESC)
+    ctxf = D.export_ctx(uf)
+    for i, doc in enumerate([{"s": "x", "a": " 3 ", "b": "1"}, {"a": "3", "b": True}, {"a": 3, "b": " true "}, {"a": 4}, {"b": "0"}, {"a": "x"}]):
+        for strict in (False, True):
+            args = {"ctx": ctxf, "data": D.to_j(doc), "target": {"cls": "F"}, "config": {"fail_on_converter_warnings": strict},
+                    "route": "dict", "desc": FIX_DESC, "_kind": "fixed"}
+            with open(os.path.join(cdir, f"w_fixw_dec_{i}_{int(strict)}.json"), "w") as f:
+                json.dump({"op": "dict.dec", "args": args}, f, ensure_ascii=False)
+    uf.close()
     for name, (desc, vals) in WITNESSES.items():
         u = B.Universe(desc)
         ctx = D.export_ctx(u)
